@@ -576,31 +576,48 @@ def holds (defs : List String) (c : Option (Bool × String)) : Bool :=
   | none => true
   | some (wantDefined, tag) => defs.contains tag == wantDefined
 
+/-- one pragma line of the flattener; the open conditional of the current file is threaded along -/
+def flatPragma (inc : Path → FlatSt → Except String FlatSt) (dir : Path) (c : Option (Bool × String)) (st : FlatSt)
+    (raw : String) (toks : List String) : Except String (Option (Bool × String) × FlatSt) :=
+  let t0 := toks.headD ""
+  let keep : FlatSt := { st with out := st.out ++ [raw] }
+  if toks == ["#endif"] then .ok (none, keep)
+  else if startsWith t0 "#else" then .ok (c.map fun (w, t) => (!w, t), keep)
+  else if startsWith t0 "#ifdef" || startsWith t0 "#ifndef" then
+    match toks with
+    | [k, tag] => .ok (some (k == "#ifdef", tag), keep)
+    | _ => .ok (c, keep)
+  else if t0 == "#define" then
+    match toks with
+    | _ :: tag :: _ =>
+      .ok (c, if c.isNone then { keep with defs := if keep.defs.contains tag then keep.defs else keep.defs ++ [tag] } else keep)
+    | _ => .ok (c, keep)
+  else if t0 == "#error" then
+    .ok (c, if holds st.defs c then { keep with abort := true } else keep)
+  else if t0 == "#include" then
+    match toks with
+    | _ :: p :: _ =>
+      if holds st.defs c then
+        match normPath (dir ++ splitPath (includePath p)) with
+        | none => .error "include-outside-root"
+        | some full => (inc full st).map fun st' => (c, st')
+      else .ok (c, st)
+    | _ => .ok (c, keep)
+  else .ok (c, keep)
+
+def flatLine (inc : Path → FlatSt → Except String FlatSt) (dir : Path) (c : Option (Bool × String)) (st : FlatSt)
+    (raw : String) : Except String (Option (Bool × String) × FlatSt) :=
+  match classify raw with
+  | some (.pragma toks) => flatPragma inc dir c st raw toks
+  | _ => .ok (c, { st with out := st.out ++ [raw] })
+
 def flattenLines (inc : Path → FlatSt → Except String FlatSt) (dir : Path) :
     List String → Option (Bool × String) → FlatSt → Except String FlatSt
   | [], _, st => .ok st
   | raw :: rest, c, st =>
-    let toks := tokenize raw
-    let keep : FlatSt := { st with out := st.out ++ [raw] }
-    match toks with
-    | "#define" :: tag :: _ =>
-      flattenLines inc dir rest c (if c.isNone then { keep with defs := if keep.defs.contains tag then keep.defs else keep.defs ++ [tag] } else keep)
-    | ["#ifdef", tag] => flattenLines inc dir rest (some (true, tag)) keep
-    | ["#ifndef", tag] => flattenLines inc dir rest (some (false, tag)) keep
-    | ["#else"] => flattenLines inc dir rest (c.map fun (w, t) => (!w, t)) keep
-    | ["#endif"] => flattenLines inc dir rest none keep
-    | "#error" :: _ =>
-      flattenLines inc dir rest c (if holds st.defs c then { keep with abort := true } else keep)
-    | "#include" :: p :: _ =>
-      if holds st.defs c then
-        match normPath (dir ++ splitPath (includePath p)) with
-        | none => .error "include-outside-root"
-        | some full =>
-          match inc full st with
-          | .error e => .error e
-          | .ok st' => flattenLines inc dir rest c st'
-      else flattenLines inc dir rest c st
-    | _ => flattenLines inc dir rest c keep
+    match flatLine inc dir c st raw with
+    | .error e => .error e
+    | .ok (c', st') => flattenLines inc dir rest c' st'
 
 def flattenFile (fs : FS) : Nat → Path → FlatSt → Except String FlatSt
   | 0, _, _ => .error "include-depth-exceeded"
@@ -610,6 +627,111 @@ def flattenFile (fs : FS) : Nat → Path → FlatSt → Except String FlatSt
     | some raws => flattenLines (flattenFile fs fuel) path.dropLast raws none st
 
 def flatten (fs : FS) (top : Path) : Except String FlatSt := flattenFile fs (fs.length + 1) top {}
+
+/-! ### well-formed include trees (hypothesis of the flattening theorem)
+
+A purely syntactic scan of the files (it runs neither reader).  Per file it tracks
+* `phase2`: a `[ moleculetype ]` header occurred earlier in include order (from then on the real reader stores
+  `#ifdef/#else/#endif` instead of evaluating them),
+* `fresh`: no section header yet since the start of the file / since the last `#include`,
+* `own` / `secMol`: this file has opened a moleculetype / its current section is inside one,
+* `cond`: the open evaluated conditional, `swallow`: inside a stored (not evaluated) conditional,
+* `molSec`: the current section is `[ molecules ]`.
+Rules: a file's first section-relevant line and the first one after every `#include` is a top-level or
+`[ moleculetype ]` header; evaluated conditionals are balanced, not nested, contain no `#define` and no
+`[ moleculetype ]`, and files included from inside them contain no `#define`, no conditional and no
+moleculetype (`frozen`); once a moleculetype has been seen conditionals occur only inside a moleculetype of the
+same file (no include since its header) and enclose no `#include/#error/#define`; `[ molecules ]` lines occur
+only in the top file; pragmas are written in their exact forms. -/
+
+structure WfSt where
+  phase2 : Bool
+  fresh : Bool := true
+  own : Bool := false
+  secMol : Bool := false
+  cond : Option (Bool × String) := none
+  swallow : Bool := false
+  molSec : Bool := false
+deriving Repr, DecidableEq, Inhabited
+
+def wfPragma (inc : Path → Bool → Bool → Option Bool) (dir : Path) (frozen : Bool) (w : WfSt) (toks : List String) :
+    Option WfSt :=
+  let t0 := toks.headD ""
+  let inMol := !w.fresh && w.own && w.secMol
+  if toks == ["#endif"] then
+    if w.phase2 then (if inMol then some { w with swallow := false } else none)
+    else (if w.cond.isSome then some { w with cond := none } else none)
+  else if startsWith t0 "#else" then
+    if toks != ["#else"] then none
+    else if w.phase2 then (if inMol then some w else none)
+    else match w.cond with
+      | some (b, t) => some { w with cond := some (!b, t) }
+      | none => none
+  else if startsWith t0 "#ifdef" || startsWith t0 "#ifndef" then
+    match toks with
+    | [k, tag] =>
+      if k != "#ifdef" && k != "#ifndef" then none
+      else if w.phase2 then (if inMol then some { w with swallow := true } else none)
+      else if w.cond.isNone && !frozen then some { w with cond := some (k == "#ifdef", tag) } else none
+    | _ => none
+  else if t0 == "#define" then
+    if toks.length ≥ 2 && w.cond.isNone && !frozen && !w.swallow then some w else none
+  else if t0 == "#error" then
+    if w.swallow then none else some w
+  else if t0 == "#include" then
+    match toks with
+    | _ :: p :: _ =>
+      if w.swallow then none
+      else match normPath (dir ++ splitPath (includePath p)) with
+        | none => none
+        | some full =>
+          match inc full (frozen || w.cond.isSome) w.phase2 with
+          | none => none
+          | some ph => some { w with phase2 := ph, fresh := true }
+    | _ => none
+  else none
+
+def wfLine (inc : Path → Bool → Bool → Option Bool) (dir : Path) (frozen isTop : Bool) (w : WfSt) (raw : String) :
+    Option WfSt :=
+  match classify raw with
+  | none => some w
+  | some .star => some w
+  | some .badHeader => none
+  | some (.header name) =>
+    if name == "moleculetype" then
+      if w.cond.isNone && !frozen && !w.swallow then
+        some { w with phase2 := true, fresh := false, own := true, secMol := true, molSec := false }
+      else none
+    else if molSubsections.contains name then
+      if !w.fresh && w.secMol then some w else none
+    else
+      if w.swallow then none
+      else some { w with fresh := false, secMol := false, molSec := name == "molecules" }
+  | some (.content _) =>
+    if w.fresh then none
+    else if w.molSec && !isTop then none
+    else some w
+  | some (.pragma toks) => wfPragma inc dir frozen w toks
+
+def wfLines (inc : Path → Bool → Bool → Option Bool) (dir : Path) (frozen isTop : Bool) : List String → WfSt → Option WfSt
+  | [], w => some w
+  | raw :: rest, w =>
+    match wfLine inc dir frozen isTop w raw with
+    | none => none
+    | some w' => wfLines inc dir frozen isTop rest w'
+
+/-- `some phase2'` = the file (and everything it includes) is well formed -/
+def wfFile (fs : FS) : Nat → Bool → Path → Bool → Bool → Option Bool
+  | 0, _, _, _, _ => none
+  | fuel + 1, isTop, path, frozen, phase2 =>
+    match fsGet fs path with
+    | none => none
+    | some raws =>
+      match wfLines (fun p fr ph => wfFile fs fuel false p fr ph) path.dropLast frozen isTop raws { phase2 := phase2 } with
+      | none => none
+      | some w => if w.cond.isNone && !w.swallow && (!frozen || w.phase2 == phase2) then some w.phase2 else none
+
+def wellFormed (fs : FS) (top : Path) : Bool := (wfFile fs (fs.length + 1) true top false false).isSome
 
 /-! ### Specification side: `[molecules]` expanded in order -/
 
